@@ -71,10 +71,14 @@ def base_request(m, op):
 
 def scenario(m, op, name, info):
     method, uri, q, hs = base_request(m, op)
-    val, probe = marker_for(m, info)
+    val, probe = marker_for(m, info) if info["loc"] != "prefix_headers" else ("-", None)
     if val is None:
         return None, None
-    if info["loc"] == "header":
+    if info["loc"] == "prefix_headers":
+        pre = (info["wire"] or "x-amz-meta-").lower()
+        hs = hs + [[pre + "zzkey", "zzmarker"], [pre + "other", "v 2"]]
+        probe = '"zzkey": "zzmarker"'
+    elif info["loc"] == "header":
         hs = [h for h in hs if h[0] != info["wire"].lower()] + [[info["wire"].lower(), val]]
     elif info["loc"] == "query":
         q = [x for x in q if x.split("=")[0] != info["wire"]] + ["%s=%s" % (info["wire"], val.replace(" ", "%20").replace(",", "%2C").replace(":", "%3A"))]
@@ -91,6 +95,9 @@ def field_shows(debug, field, probe):
             return False
         elems = re.findall(r'"([^"]*)"', m.group(1))
         return elems == list(probe)
+    if isinstance(probe, str) and probe.startswith('"zzkey"'):
+        m = re.search(r"\b%s: (?:Some\()?\{([^}]*)\}" % re.escape(field), debug)      # a map: entries in any order
+        return bool(m and sorted(re.findall(r'"([^"]*)": "([^"]*)"', m.group(1))) == [("other", "v 2"), ("zzkey", "zzmarker")])
     m = re.search(r"\b%s: ([^,}]*(?:\([^)]*\))?[^,}]*)" % re.escape(field), debug)
     return bool(m and probe in m.group(1))
 
@@ -109,7 +116,7 @@ def run_witnesses(rep, ops, proxy=False):
         if "{Bucket}" not in m.http(op)["uri"] and m.http(op)["uri"].split("?")[0] != "/":
             continue      # literal path (WriteGetObjectResponse): unreachable, known finding under C01
         for name, i in members:
-            if i["loc"] not in ("header", "query") or (op, name) in m.minio_members:
+            if i["loc"] not in ("header", "query", "prefix_headers") or (op, name) in m.minio_members:
                 continue
             sc, probe = scenario(m, op, name, i)
             if sc is None:
